@@ -155,6 +155,19 @@ CLAIMS = {
         note=NOTE_COMMON + "The traversal-parent setter, used only by create_element on a new element, is not atomic and is excluded. Findings D9a-c, D26, D27 were violations and are repaired in /repo.",
         technique="Lean 4 proof (heap-surviving error monad; case analysis) + differential correspondence incl. exception kinds + before/after observation on API histories",
         design="DESIGN.md §5 C09-C12"),
+    'C18': dict(
+        text="In the model a message profile is the standard tables with the profile's deviations applied (Prof.applyAll edits T) and every function - parser, group finder, admission, "
+             "validator, encoders - takes the tables as a parameter, so precedence of the profile holds in the model by construction and every theorem stated for an arbitrary T "
+             "(C01-C05, C08, C14) holds of the profiled tables. Proved: a profile lacking the structure gives MessageProfileNotFound and a legacy entry LegacyMessageProfile, both after "
+             "the header errors; with an entry present parsing is the standard parser on the profiled tables; a profile restating the standard changes nothing (no deviations, same "
+             "tables; restating a row's own cardinality is the identity edit); a cardinality edit makes every row of that name under that parent carry the profile's values, a "
+             "forbid edit leaves no such row, other parents and the by-name fallback tables are untouched. That the IMPLEMENTATION threads the profile's reference down every path is "
+             "decided by the correspondence (real library given a profile synthesised from the same edits vs the model on the edited tables: encoding, group tree, validation report, "
+             "both levels) and by a creation-path oracle (traversal, add_group / add_segment / add_field under Message(name, reference=profile)) - partial.",
+        note=NOTE_COMMON + "Edits are uniform by name inside one profile; path-dependent profiles such as the shipped ITI-21 one (and its max-length deviations) are exercised through the "
+             "selection clauses and the repository's own tests only. No 'forbid' edit on open-ended segments.",
+        technique="Lean 4 proof (tables as a parameter; list lemmas on the edit functions) + differential correspondence with synthesised profiles + creation-path oracle",
+        design="DESIGN.md §5 C18"),
     'C04': dict(
         text="Proved on the model of Validator.validate (structured error list; validated against /repo incl. error order), one structure level at a time and for every "
              "structure and child list: a required row without a matching child yields 'Missing required child'; more children than a row's maximum yields 'Child limit "
